@@ -736,18 +736,19 @@ func (s *clientSocket) registerAckHandler(f any, timeout time.Duration) (id uint
 		delete(s.acks, id)
 		s.acksMu.Unlock()
 
-		remove := func(slice []sendBufferItem, s int) []sendBufferItem {
-			return append(slice[:s], slice[s+1:]...)
-		}
-
+		// Drop every buffered packet of this ack (a binary event has several).
+		// Build a new slice instead of removing in place while ranging.
 		s.sendBufferMu.Lock()
-		for i, packet := range s.sendBuffer {
+		defer s.sendBufferMu.Unlock()
+		kept := make([]sendBufferItem, 0, len(s.sendBuffer))
+		for _, packet := range s.sendBuffer {
 			if packet.ackID != nil && *packet.ackID == id {
 				s.debug.Log("Removing packet with ack ID", id)
-				s.sendBuffer = remove(s.sendBuffer, i)
+				continue
 			}
+			kept = append(kept, packet)
 		}
-		s.sendBufferMu.Unlock()
+		s.sendBuffer = kept
 	})
 	if err != nil {
 		panic(err)
